@@ -6,6 +6,7 @@ import (
 	"strings"
 
 	"github.com/osteele/liquid"
+	yaml "gopkg.in/yaml.v2"
 	"github.com/osteele/liquid/render"
 
 	"verif/harness/core"
@@ -293,6 +294,19 @@ func runC12(c *core.Ctx) {
 		if modelCompare(c, e, mm, prog, env, bind, gen.DefaultStyle, "drop-rebinding", "a loop variable, capture or assign over Drops: the name must have the current item in each iteration and its earlier value after the loop") {
 			c.Obs("drop_rebinding_cases", 1)
 			c.Distinct("droprebind", src, gen.DescribeEnv(bind))
+		}
+	}
+	// ---- a loop item kept with assign is that item for good, whatever the collection is made of ---------------------------
+	if c.Shard == 8%c.NShards && c.Begin("kept loop items") {
+		src := "{% for p in coll %}{% if forloop.first %}{% assign kept = p %}{% endif %}{% assign prev = cur %}{% assign cur = p %}{% if prev %}{{ prev[0] }}<{{ cur[0] }};{% endif %}{% endfor %}|{{ kept[0] }}={{ kept[1] }}|{{ cur[0] }}={{ cur[1] }}"
+		want := "a<b;b<c;|a=1|c=3"
+		colls := map[string]any{"ordered map": yaml.MapSlice{{Key: "a", Value: 1}, {Key: "b", Value: 2}, {Key: "c", Value: 3}}, "map": map[string]any{"a": 1, "b": 2, "c": 3}, "typed map": map[string]int{"a": 1, "b": 2, "c": 3},
+			"array of pairs": []any{[]any{"a", 1}, []any{"b", 2}, []any{"c", 3}}, "typed pairs": [][]any{{"a", 1}, {"b", 2}, {"c", 3}}, "drop of ordered map": gen.DropV{X: yaml.MapSlice{{Key: "a", Value: 1}, {Key: "b", Value: 2}, {Key: "c", Value: 3}}},
+			"fixed arrays": [3][2]any{{"a", 1}, {"b", 2}, {"c", 3}}}
+		for name, coll := range colls {
+			expectOut(c, e, src, map[string]any{"coll": coll}, want, "kept-loop-item", "a loop item bound with assign holds exactly that item for the rest of the render (later iterations must not change it)", map[string]any{"collection": name})
+			c.Obs("kept_loop_item_cases", 1)
+			c.Distinct("kept", name)
 		}
 	}
 	// ---- capture equivalence over the general generator ---------------------------------
